@@ -770,10 +770,7 @@ func (g *c24G) body(cmd string) string {
 	case "members-filtered":
 		return "M" + mKV("Tags", g.pick([]string{"n", "D", "D" + hexs("role") + ":" + mS("web")})) + "," + mKV("Status", mS(g.pick([]string{"", "alive", "left", "al.*"}))) + "," + mKV("Name", mS(g.pick([]string{"", "node-.*", "zz"})))
 	case "stream":
-		// only filters that match nothing the case fires (user events, queries, the tag update, the
-		// sentinel): an event dispatched to a stream while its connection closes hits the recorded
-		// C25 finding event-after-stop-panic (send on closed channel kills the agent process)
-		return "M" + mKV("Type", mS(g.pick([]string{"user:nomatch", "member-join", "member-join,user:nomatch2", "query:nomatch", "member-leave,member-failed", "bogus"})))
+		return "M" + mKV("Type", mS(g.pick([]string{"*", "user", "user:deploy", "member-join,user:a", "query", "", "bogus", "member-update", "user:nomatch"})))
 	case "monitor":
 		return "M" + mKV("LogLevel", mS(g.pick([]string{"DEBUG", "info", "ERR", "nolevel"})))
 	case "stop":
